@@ -1013,10 +1013,26 @@ def rdOp : Rd OpDecl := do
   let edges ← rdRepeat rdEdge 12
   pure ⟨deleted, corners, patches, sideProj, bp, tp, zone, counts, simple, wg.map (·.1), edges, wg.all (·.2)⟩
 
+/-- `EighthSphere.geometry` (all sphere shapes): the `searchableSphere` a sphere shape brings — `origin` and `centre` are
+    `vector_format(center_point)`, the radius is `f"{radius}"` (`str(float)`) -/
+def sphereGeometry (label : String) (c : NumV3) (radius : PyNum) : GEntry :=
+  ⟨label, [[.atom "type", .atom "searchableSphere"], [.atom "origin", pointTree c], [.atom "centre", pointTree c],
+    [.atom "radius", .atom radius.str]]⟩
+
+/-- a geometry entry: `=name <n> <property tokens>…` (opaque strings of the user) or `=name SPH <centre> <radius>` (a sphere
+    shape: printed here; a radius that fails the validator makes the request ill-formed) -/
 def rdGEntry : Rd GEntry := do
   let n ← rdStr
-  let props ← rdList rdTrees
-  pure ⟨n, props⟩
+  match (← get) with
+  | "SPH" :: ws => do
+      set ws
+      let c ← rdNumV3
+      let r ← rdPyNum
+      if !r.ok then failure
+      pure (sphereGeometry n c r)
+  | _ => do
+      let props ← rdList rdTrees
+      pure ⟨n, props⟩
 
 def rdEntity : Rd Entity := do
   let ops ← rdList rdOp
@@ -1134,9 +1150,10 @@ def firstDiff : List Tok → List Tok → Nat → Option Nat
   | a :: as, b :: bs, i => if a == b then firstDiff as bs (i + 1) else some i
   | _, _, i => some i
 
-/-- `c06.file =<text of the written file> <declaration>` → the file is tokenized HERE and compared with the model's rendering:
-    `same=` the token lists are equal, `wf=` every rendered token is well-formed (so `T_C06_lex_unlex` applies to the rendering),
-    `relex=` tokenizing the un-tokenized rendering gives the rendering back (run-time instance), then the tokens of the file -/
+/-- `c06.file =<text of the written file> <declaration>` → everything `c06.render` answers (the declaration is assembled once)
+    and, on the raw text tokenized HERE: `same=` the tokens of the file equal the model's rendering (`at=` first difference),
+    `wf=` every rendered token is well-formed (so `T_C06_lex_unlex` applies to the rendering), `relex=` tokenizing the
+    un-tokenized rendering gives the rendering back (run-time instance); then the token stream of the rendering -/
 def handleFile (args : List String) : Option String :=
   match args with
   | [] => none
@@ -1145,11 +1162,13 @@ def handleFile (args : List String) : Option String :=
       let text ← unescape (t.drop 1).toString
       let (decl, extra) ← rdDecl.run rest
       if !extra.isEmpty then none
-      let want := render (assembleDecl decl)
+      let d := assembleDecl decl
+      let want := render d
       let got := lexText text.toList
       let at_ := match firstDiff got want 0 with | some i => toString i | none => "-"
-      some (s!"ok same={b2s (got == want)} wf={b2s (want.all Tok.wf)} relex={b2s (lexText (unlex want) == want)} at={at_} T " ++
-        showToks got)
+      some (s!"ok idx={b2s (indicesOk d)} geom={b2s (geometryOk d)} quads={b2s (quadsOk d)} rt={b2s (roundTripOk d)} " ++
+        s!"num={b2s ((declOps decl).all (·.numsOk))} same={b2s (got == want)} wf={b2s (want.all Tok.wf)} " ++
+        s!"relex={b2s (lexText (unlex want) == want)} at={at_} T " ++ showToks want)
 
 def handle (op : String) (args : List String) : Option String :=
   match op with
